@@ -3,6 +3,8 @@
 package swap
 
 import (
+	"strings"
+
 	"github.com/elementsproject/peerswap/messages"
 	"github.com/elementsproject/peerswap/zzverif"
 )
@@ -68,6 +70,32 @@ func H_C21_oversizedIgnored() {
 	zzverif.Assert(err != nil && vFinger(sc.sm) == fp && vNoEffects(sc.env.w), "C21.oversized_ignored")
 }
 
+// H_C21_oversizedValidMessageIgnored: the limit is on the byte length, at every length above it: a
+// well-formed cancel of the counterparty for the active swap whose encoding is longer than 100 KiB (a long
+// message text; lengths 1, 512 and 1023 bytes above the limit and 101 KiB) changes nothing.
+func H_C21_oversizedValidMessageIgnored() {
+	sc, _ := vC09Scenario()
+	fp := vFinger(sc.sm)
+	zzverif.JSONArbitrary(false)
+	zzverif.JSONUnbounded()
+	text := zzverif.Str("m.message")
+	n := []int{100*1024 + 1, 100*1024 + 512, 100*1024 + 1023, 101 * 1024}[zzverif.Choice("length", 4)]
+	var payload []byte
+	if zzverif.Symbolic() {
+		// the encoding of some message text has exactly this length
+		payload = vMarshal(&CancelMessage{SwapId: sc.sm.SwapId, Message: text})
+		zzverif.Assume(len(payload) == n)
+	} else {
+		// natively: pad the text until the real encoding has it
+		overhead := len(vMarshal(&CancelMessage{SwapId: sc.sm.SwapId, Message: ""}))
+		payload = vMarshal(&CancelMessage{SwapId: sc.sm.SwapId, Message: strings.Repeat("a", n-overhead)})
+	}
+	err := sc.svc.OnMessageReceived(sc.sm.Data.PeerNodeId, vHexType(messages.MESSAGETYPE_CANCELED), payload)
+	zzverif.Assert(err != nil && vFinger(sc.sm) == fp && vNoEffects(sc.env.w), "C21.oversized_valid_message_ignored")
+	cur, aerr := sc.svc.GetActiveSwap(sc.id)
+	zzverif.Assert(aerr == nil && cur == sc.sm, "C21.oversized_valid_message_keeps_swap")
+}
+
 // H_C21_sentTypesMatchStruct: every message the swap actions marshal is sent with the type number of
 // the struct that was marshalled (MarshalPeerswapMessage), for all seven structs.
 func H_C21_marshalTypeMatchesStruct() {
@@ -77,4 +105,38 @@ func H_C21_marshalTypeMatchesStruct() {
 	k := zzverif.Choice("msg", len(msgs))
 	_, t, err := MarshalPeerswapMessage(msgs[k])
 	zzverif.Assert(err == nil && t == int(vSwapMsgTypes[k]) && t%2 == 1 && t >= 42069 && t <= 42085, "C21.marshal_type_matches_struct")
+}
+
+// H_C21_swapIdDecoding: the swap_id field of every message is decoded by (*SwapId).FromString /
+// ParseSwapIdFromString (the JSON codec calls it): exactly 64 hex characters are a swap id, everything
+// else - shorter or longer hex, odd length, non-hex - is a decoding error and leaves the id untouched.
+// (The JSON layer itself is outside, cf. C14; this is the kernel behind it.)
+// Bounds: hex strings of 0, 1, 16, 31, 32, 33 and 64 bytes (arbitrary content), one odd-length and one
+// non-hex string (concrete).
+func H_C21_swapIdDecoding() {
+	lens := []int{0, 1, 16, 31, 32, 33, 64}
+	k := zzverif.Choice("kind", len(lens)+2)
+	var str string
+	wantOK := false
+	switch {
+	case k < len(lens):
+		// (one symbol name per length: length facts about a symbol hold on every path of the entry)
+		str = zzverif.HexStr([]string{"id0", "id1", "id16", "id31", "id32", "id33", "id64"}[k], lens[k])
+		wantOK = lens[k] == 32
+	case k == len(lens):
+		str = "0123456789abcdef0123456789abcdef0123456789abcdef0123456789abcde" // 63 hex characters
+	default:
+		str = "zz23456789abcdef0123456789abcdef0123456789abcdef0123456789abcdef" // 64 characters, not hex
+	}
+	var id SwapId
+	before := id
+	err := id.FromString(str)
+	zzverif.Assert((err == nil) == wantOK, "C21.swap_id_is_exactly_32_bytes_of_hex")
+	if err != nil {
+		zzverif.Assert(id == before, "C21.rejected_swap_id_leaves_id_untouched")
+	} else {
+		zzverif.Assert(id.String() == str, "C21.swap_id_round_trip")
+	}
+	p, perr := ParseSwapIdFromString(str)
+	zzverif.Assert((perr == nil) == wantOK && (perr != nil || p.String() == str), "C21.parse_swap_id_is_exactly_32_bytes_of_hex")
 }
